@@ -222,6 +222,33 @@ def main():
         report["functions"][name] = {"rust": re.sub(r"\s+", " ", body.strip()), "lean": e, "files": [c[0] for c in copies]}
         if partial:
             report["partialFns"].append(name)
+    # the number of elements `visit_seq` (serde) pre-allocates for an announced length `size` (src/store.rs): the argument of
+    # the `with_capacity…(…)` call in the `if let Some(size) = seq.size_hint()` arm — `size.min(CONST)` with a `const CONST: usize
+    # = N;` in scope, or `size` itself (the unbounded request of the original code, defect F8)
+    prealloc = None
+    try:
+        ssrc = strip_comments(open(os.path.join(REPO, "src/store.rs")).read())
+        m = re.search(r"if\s+let\s+Some\((\w+)\)\s*=\s*seq\.size_hint\(\)\s*\{\s*Store::with_capacity_and_default_hasher\(([^;{}]*?)\)\s*\}", ssrc)
+        if m:
+            var, arg = m.group(1), re.sub(r"\s+", "", m.group(2))
+            if arg == var:
+                prealloc = "size"
+            else:
+                m2 = re.fullmatch(re.escape(var) + r"\.min\((\w+)\)", arg)
+                if m2:
+                    c = m2.group(1)
+                    if c.isdigit():
+                        prealloc = "(min size %s)" % c
+                    else:
+                        m3 = re.search(r"const\s+" + re.escape(c) + r"\s*:\s*usize\s*=\s*([0-9_]+)\s*;", ssrc)
+                        if m3:
+                            prealloc = "(min size %s)" % m3.group(1).replace("_", "")
+        if prealloc is None:
+            report["unparsed"].append({"fn": "visit_seq pre-allocation", "why": "the size_hint arm of visit_seq has an unexpected shape"})
+        else:
+            report["functions"]["deser_prealloc"] = {"lean": prealloc, "files": ["src/store.rs"]}
+    except OSError as ex:
+        report["unparsed"].append({"fn": "visit_seq pre-allocation", "why": str(ex)})
     order = ["left", "right", "parent", "log2_fast", "level", "better_to_rebuild"]
     text = ["/-! GENERATED by /verif/tools/gen_arith.py from /repo/src/*/mod.rs — do not edit.",
             "    `usize` is `Nat`; `-` is truncated subtraction (call sites of the functions listed in",
@@ -233,6 +260,10 @@ def main():
     for n in order:
         if n in defs:
             text.append(defs[n]); text.append("")
+    if prealloc is not None:
+        text.append("/-- `visit_seq`: the number of elements pre-allocated when the input announces `size` elements -/")
+        text.append("def deserPrealloc (size : Nat) : Nat :=\n  " + prealloc)
+        text.append("")
     text.append("def partialFns : List String := " + json.dumps(sorted(report["partialFns"])))
     text.append("")
     text.append("end PQ.Arith")
